@@ -398,3 +398,19 @@ struct RangeCtl
 };
 void swapped_arguments(RangeCtl& r, double lhs, double rhs) { r.changeRange(rhs, lhs); }
 }
+
+// R19.17: the address one past the last element formed with a bounds-asserting subscript and handed to setMem()
+namespace verif_ctl
+{
+struct CheckedArrCtl
+{
+   double* data;
+   int thesize;
+   double& operator[](int n) { return data[n]; }
+};
+struct VecCtl { void setMem(int n, double* m); };
+void address_by_checked_subscript(CheckedArrCtl& arr, VecCtl& v, int used)
+{
+   v.setMem(0, &arr[used]);
+}
+}
